@@ -449,6 +449,28 @@ func verifBoltCursorNext(cur *bbolt.Cursor) ([]byte, []byte) {
 	return verifCurAt(c)
 }
 
+func verifBoltCursorLast(cur *bbolt.Cursor) ([]byte, []byte) {
+	c := verifCurOf(cur)
+	c.pos = len(c.bk.mb.kvs) - 1
+	if c.pos < 0 {
+		c.gen = c.bk.mb.gen
+		return nil, nil
+	}
+	return verifCurAt(c)
+}
+
+func verifBoltCursorPrev(cur *bbolt.Cursor) ([]byte, []byte) {
+	c := verifCurOf(cur)
+	verifAssert("C26-bbolt-contract-no-change-while-iterating", c.gen == c.bk.mb.gen)
+	if c.pos <= 0 {
+		c.pos = -1
+		c.gen = c.bk.mb.gen
+		return nil, nil
+	}
+	c.pos--
+	return verifCurAt(c)
+}
+
 func verifBoltCursorSeek(cur *bbolt.Cursor, seek []byte) ([]byte, []byte) {
 	c := verifCurOf(cur)
 	ik := verifIK(seek)
